@@ -39,21 +39,42 @@ HOSTILE_LINES = [
 ]
 
 # characters whose UTF-16 / UTF-32 code units contain 0x0A / 0x0D / 0x20 bytes
+LOOKALIKE_EXTRA = ['\u3000', '\u4e00', '\u2500', '\u0100', '\u0a85', '\u0a20',
+                   '\u0d20', '\u2000', '\u200a', '\u0a40']
 LOOKALIKE_CHARS = ['਀', '਍', 'ഊ', 'Ċ', ' ',
                    ' ', 'ਊ', '†', '഍', ' ',
                    'ਠ', '‍']
+
+
+_dic = {}
+
+
+def _dictionary():
+    if 'v' not in _dic:
+        try:
+            from mon.gen import dictionary
+            _dic['v'] = dictionary.as_text()
+        except Exception:
+            _dic['v'] = []
+    return _dic['v']
 
 
 def text(rng, codec=None, lookalikes=True, maxlines=6):
     """Random hostile text; if codec is given only encodable material."""
     n = rng.randint(1, maxlines)
     lines = []
+    dic = _dictionary()
     for _ in range(n):
         r = rng.random()
-        if r < 0.65:
+        if r < 0.06 and dic:
+            ln = rng.choice(dic)
+            if '\n' in ln or '\r' in ln:
+                ln = ln.replace('\n', ' ').replace('\r', ' ')
+        elif r < 0.65:
             ln = rng.choice(HOSTILE_LINES)
         elif r < 0.8 and lookalikes:
-            ln = ''.join(rng.choice(LOOKALIKE_CHARS + ['a', ' ', 'z'])
+            ln = ''.join(rng.choice(LOOKALIKE_CHARS + LOOKALIKE_EXTRA +
+                                    ['a', ' ', 'z'])
                          for _ in range(rng.randint(1, 6)))
         else:
             ln = ''.join(rng.choice('ab #.:=,-+@\\') for _ in
